@@ -5,7 +5,7 @@
     clamped to [current position, line length] (the repair proposed for the here-document
     finding).  gen/C19Variant.v, regenerated from /repo on every run, says which one the code
     has; [highlight] = [highlight_gen clamp_spans]. *)
-From BV Require Import Base.Prelude gen.C19Variant Hl.Spans Hl.Spec Hl.Proofs Hl.Examples.
+From BV Require Import Base.Prelude gen.C19Variant Hl.Spans Hl.Spec Hl.Proofs Hl.Cursor Hl.Examples.
 Local Open Scope nat_scope.
 
 (** For every line, cursor and every token/piece tree handed to the highlighter that passes the
@@ -117,3 +117,10 @@ Theorem c19_unescaped_backquote_refuted :
   prog_ok ex_bq_line ex_bq_tree = 4 /\ forall clamp, highlight_gen clamp ex_bq_line 0 ex_bq_tree = None.
 Proof. exact ex_bq. Qed.
 Print Assumptions c19_unescaped_backquote_refuted.
+
+(** The cursor only influences kinds (command classification): the byte ranges of the spans, and
+    whether the highlighter panics, do not depend on it. *)
+Theorem c19_ranges_cursor_independent : forall clamp top c1 c2 p,
+  option_map (map range) (highlight_gen clamp top c1 p) = option_map (map range) (highlight_gen clamp top c2 p).
+Proof. exact ranges_cursor_independent. Qed.
+Print Assumptions c19_ranges_cursor_independent.
